@@ -105,7 +105,13 @@ impl Lang {
     }
 }
 
+pub static MARKDOWN: Lang = Lang { name: "markdown", suffixes: &["md", "markdown"], family: Family::Md, line: &["[//]:"], block: Some(("<!--", "-->")),
+    wrap: "{}", cr_in_line: false, code: &["Some paragraph text.", "More words here."], decoy: Some("text `{}` more"), prelude: "" };
+
 pub fn lang(name: &str) -> &'static Lang {
+    if name == "markdown" {
+        return &MARKDOWN;
+    }
     LANGS.iter().find(|l| l.name == name).expect("language")
 }
 
@@ -313,12 +319,48 @@ impl<'a> W<'a> {
         kind_of(self.lang.family, opener, 0)
     }
     fn block_kind(&self) -> u32 {
+        if self.lang.family == Family::Md {
+            return K_RAW;
+        }
         kind_of(self.lang.family, self.lang.block.map(|b| b.0).unwrap_or("/*"), 0)
+    }
+    fn block_group(&self) -> usize {
+        if self.lang.family == Family::Md { 1 } else { 0 }
+    }
+    /// Markdown: both comment forms start a new block-level construct; keep a blank line before them
+    fn md_break(&mut self) {
+        if self.lang.family == Family::Md && !self.buf.is_empty() && !self.buf.ends_with("\n\n") {
+            if !self.buf.ends_with('\n') {
+                self.buf.push_str(self.nl);
+            }
+            self.buf.push_str(self.nl);
+        }
     }
     /// writes a comment carrying `body` (pre+tags+post already joined by the caller through `emit`)
     /// returns (comment lo, comment hi); `emit` writes the inner text and may record positions
     fn comment<F: FnOnce(&mut W<'a>)>(&mut self, place: &Place, emit: F) -> (usize, usize) {
-        self.buf.push_str(&place.indent);
+        self.md_break();
+        if self.lang.family == Family::Md {
+            if let Form::Line(i) = &place.form {
+                // link reference definition used as a comment: [//]: # (text)
+                let lo = self.buf.len();
+                let (o, c) = if i % 2 == 0 { ("(", ")") } else { ("'", "'") };
+                self.buf.push_str("[//]: # ");
+                self.buf.push_str(o);
+                self.buf.push_str(&place.pre);
+                emit(self);
+                self.buf.push_str(&place.post);
+                self.buf.push_str(c);
+                self.buf.push_str(self.nl);
+                // the node includes its line terminator
+                let hi = self.buf.len();
+                self.spans.push(Span { lo, hi, kind: K_MD_REF, group: 0 });
+                self.buf.push_str(self.nl);
+                return (lo, hi);
+            }
+        }
+        let indent = if self.lang.family == Family::Md { "" } else { place.indent.as_str() };
+        self.buf.push_str(indent);
         let lo = self.buf.len();
         match &place.form {
             Form::Line(i) => {
@@ -347,7 +389,7 @@ impl<'a> W<'a> {
                 self.buf.push_str(&place.post);
                 self.buf.push_str(c);
                 let hi = self.buf.len();
-                self.spans.push(Span { lo, hi, kind: self.block_kind(), group: 0 });
+                self.spans.push(Span { lo, hi, kind: self.block_kind(), group: self.block_group() });
                 self.buf.push_str(&place.trailing);
                 self.buf.push_str(self.nl);
                 (lo, hi)
@@ -376,7 +418,7 @@ impl<'a> W<'a> {
                 self.buf.push(' ');
                 self.buf.push_str(c);
                 let hi = self.buf.len();
-                self.spans.push(Span { lo, hi, kind: self.block_kind(), group: 0 });
+                self.spans.push(Span { lo, hi, kind: self.block_kind(), group: self.block_group() });
                 self.buf.push_str(&place.trailing);
                 self.buf.push_str(self.nl);
                 (lo, hi)
